@@ -41,6 +41,11 @@ def prepare_target(base, target):
         return "-", None, None
     if target == "absent":
         return os.path.join(base, "out.bin"), os.path.join(base, "out.bin"), None
+    if target == "emptyfile":
+        p = os.path.join(base, "empty.bin")
+        open(p, "wb").close()
+        os.utime(p, (1500000000, 1500000000))
+        return p, p, sha(p)
     if target == "file":
         p = os.path.join(base, "existing.bin")
         with open(p, "wb") as f:
@@ -83,7 +88,7 @@ def run(tier, seed, replay=None):
                   ("dangling", [srv.dnode(["d"], 1500000000), srv.lnode(["d", "dl"], ["d", "nothing"])], False, False),
                   ("longname", [srv.dnode(["d"], 1500000000), srv.fnode(["d", "n" * 240], 5, cid="ln", mtime=1500000001)], False, False)]
         for name, nodes, ps3, input_ok in trees:
-            for target in (["absent", "stdout", "file", "dir"] if (full or name in ("small0", "ps3")) else [rng.choice(["absent", "stdout"]), rng.choice(["file", "dir"])]):
+            for target in (["absent", "stdout", "file", "emptyfile", "dir"] if (full or name in ("small0", "ps3")) else [rng.choice(["absent", "stdout"]), rng.choice(["file", "emptyfile", "dir"])]):
                 n += 1
                 base = os.path.join(scratch, "mk%d" % n)
                 os.makedirs(base)
@@ -128,7 +133,7 @@ def run(tier, seed, replay=None):
                 dec_cases.append((tool, "3k3y-dec", "already-decrypted", [[0, 3], [5, 8]], 8, False, "goodkey"))
                 dec_cases.append((tool, "redump", "no-watermark", [[0, 3], [5, 8]], 8, False, "goodkey"))
         for tool, kind, sname, regions, sectors, ok, keykind in dec_cases:
-            for target in (["absent", "stdout", "file", "dir"] if (full or sname == "ok") else ["absent", rng.choice(["file", "stdout"])]):
+            for target in (["absent", "stdout", "file", "emptyfile", "dir"] if (full or sname == "ok") else ["absent", rng.choice(["file", "emptyfile", "stdout"])]):
                 n += 1
                 base = os.path.join(scratch, "dec%d" % n)
                 os.makedirs(base)
